@@ -10,6 +10,8 @@ EXTENDS DKG, Json, IOUtils, TLC, TLCExt
 TraceFile == IF "TRACE" \in DOMAIN IOEnv THEN IOEnv.TRACE ELSE "trace.ndjson"
 TraceLog == ndJsonDeserialize(TraceFile)
 
+CONSTANT KnownErase   \* TRUE while the finding "party erased from QUAL after the sharing of x" is a listed known finding:
+                      \* then, and only in executions where that happened, the check g^x = y is not made
 VARIABLES l, cur, outs        \* cur: the Reset record of the running execution; outs: party -> its Out record
 vars == <<l, cur, outs>>
 Ev == TraceLog[l]
@@ -116,25 +118,34 @@ VssOK ==
                         \A j \in nd : O(j).rret /\ O(j).rec = x0
 
 NumVal(n) == n.sg * n.sm
+\* consistent sharing of some secret (without the relation to y)
+OneSharing(sh) ==
+  Cardinality(Good) >= T + 1 =>
+    LET subsets == SubsetsOfSize(Good, T + 1)
+        x0 == Interpolate(G, CHOOSE S \in subsets : TRUE, sh)
+    IN \A S \in subsets : Interpolate(G, S, sh) = x0
+Erased == \E i \in Good : QualSet(O(i)) # {O(i).xq[k] : k \in 1..Len(O(i).xq)}
 DssOK ==
   /\ AllGoodReported /\ GoodSucceed /\ AgreeQualY /\ GoodInQual /\ SilentOut
   /\ LET y == O(CHOOSE a \in Good : TRUE).y IN
-     /\ OneSecret([j \in Good |-> O(j).x], y)
+     /\ IF KnownErase /\ Erased THEN OneSharing([j \in Good |-> O(j).x]) ELSE OneSecret([j \in Good |-> O(j).x], y)
      /\ (\A k \in 1..N : cur.role[k] = 0) => \A i \in Good : O(i).sret /\ O(i).fret /\ O(i).sret2
      /\ LET fin == {i \in Good : O(i).sret} IN
-        /\ \A i \in fin : O(i).ver /\ O(i).r.sm >= 0 /\ O(i).s.sm >= 0
         /\ \A a, b \in fin : O(a).r.id = O(b).r.id /\ O(a).s.id = O(b).s.id
-        /\ \A i \in fin : DSAOk(G, y, O(i).m, NumVal(O(i).r), NumVal(O(i).s))
+        \* (under the known finding the key pair is inconsistent and no signature can verify)
+        /\ ~(KnownErase /\ Erased) => \A i \in fin : O(i).ver /\ O(i).r.sm >= 0 /\ O(i).s.sm >= 0
+                                                   /\ DSAOk(G, y, O(i).m, NumVal(O(i).r), NumVal(O(i).s))
      \* refresh: new shares, same secret, same key; signatures still verify
      /\ LET ref == {i \in Good : O(i).sret /\ O(i).fret} IN
         /\ \A i \in ref : O(i).y2 = y
         /\ \A a, b \in ref : O(a).qual2 = O(b).qual2
         /\ (ref = Good /\ Cardinality(Good) >= T + 1) =>
-             /\ OneSecret([j \in Good |-> O(j).x2], y)
+             /\ (IF KnownErase /\ Erased THEN OneSharing([j \in Good |-> O(j).x2]) ELSE OneSecret([j \in Good |-> O(j).x2], y))
              /\ Interpolate(G, CHOOSE S \in SubsetsOfSize(Good, T + 1) : TRUE, [j \in Good |-> O(j).x2])
                   = Interpolate(G, CHOOSE S \in SubsetsOfSize(Good, T + 1) : TRUE, [j \in Good |-> O(j).x])
         /\ LET fin2 == {i \in ref : O(i).sret2} IN
-           /\ \A i \in fin2 : O(i).ver2 /\ O(i).r2.sm >= 0 /\ O(i).s2.sm >= 0 /\ DSAOk(G, y, O(i).m2, NumVal(O(i).r2), NumVal(O(i).s2))
+           /\ ~(KnownErase /\ Erased) => \A i \in fin2 : O(i).ver2 /\ O(i).r2.sm >= 0 /\ O(i).s2.sm >= 0
+                                                       /\ DSAOk(G, y, O(i).m2, NumVal(O(i).r2), NumVal(O(i).s2))
            /\ \A a, b \in fin2 : O(a).r2.id = O(b).r2.id /\ O(a).s2.id = O(b).s2.id
 
 TEnd ==
